@@ -101,7 +101,12 @@ def node_cover(eng, res, fi, rule="R-NODE-COVER"):
     res.ob(rule, fi, "element-dispatch", "every element is registered: plain tokens, and for stochastic objects every repeat AND end token; any other kind raises", fi.node, ok, why)
     # one add_node per residue, one per descriptor
     adds = calls(fi, "add_node")
-    res_nodes = [c for c in adds if c.args and any(isinstance(l, ast.For) and src(l.iter) == "residues" for l in cfg.enclosing_loops(c)) and src(c.args[0]) == _loop_var([l for l in cfg.enclosing_loops(c) if isinstance(l, ast.For)][-1])]
+    rname = None
+    if disp is not None:
+        for st in ast.walk(disp[1]):
+            if isinstance(st, ast.Assign) and isinstance(st.targets[0], ast.Subscript) and isinstance(st.targets[0].value, ast.Name):
+                rname = st.targets[0].value.id
+    res_nodes = [c for c in adds if c.args and any(isinstance(l, ast.For) and src(l.iter) == rname for l in cfg.enclosing_loops(c)) and src(c.args[0]) == _loop_var([l for l in cfg.enclosing_loops(c) if isinstance(l, ast.For)][-1])]
     bd_nodes = [c for c in adds if c.args and any(isinstance(l, ast.For) and src(l.iter).endswith(".bond_descriptors") for l in cfg.enclosing_loops(c))]
     ok = len(res_nodes) >= 1 and len(bd_nodes) == 1
     if ok:
@@ -232,51 +237,71 @@ def edge_compat(eng, res, fi, rule="R-EDGE-COMPAT"):
     return n
 
 
+def _kinds(pos):
+    """{var: kind} from isinstance($X, SmilesToken|Stochastic) conjuncts."""
+    out = {}
+    for t in pos:
+        m = re.fullmatch(r"isinstance\((\w+), (SmilesToken|Stochastic)\)", t)
+        if m:
+            out[m.group(1)] = m.group(2)
+    return out
+
+
 def pool_agree(eng, res, fi, rule="R-POOL-AGREE"):
+    from ..pat import solve, unify
+
     flow = eng.flow(fi)
+    cfg = flow.cfg
     sites = [EdgeSite(fi, flow, c) for c in calls(fi, "add_edge")]
     n = 0
+    combos = set()
+    pairs = []
     for s in sites:
         if s.key is None or isinstance(s.value, ast.Name):
             continue
         n += 1
         pos = {t for t, p in s.guards if p}
+        kinds = _kinds(pos)
         role = f"{s.key}:{_site_key(s)}:{'const' if isinstance(s.value, ast.Constant) else 'weight'}"
-        if s.key == "prob":
-            ok = any(t.endswith(f"[{s.a1}] in element.repeat_tokens") for t in pos)
-            what = "reaction edges range over repeat-unit descriptors (the growth pool)"
-        elif s.key == "term_prob":
-            ok = any(t.endswith(f"[{s.a1}] in element.end_tokens") for t in pos)
-            what = "termination edges range over end-group descriptors (the capping pool)"
+        # the element whose descriptors the innermost loop ranges over
+        inner = s.loops[0] if s.loops else None
+        envN = unify("$N.bond_descriptors", src(inner.iter)) if inner is not None else None
+        N = envN["N"] if envN else None
+        if s.key in ("prob", "term_prob"):
+            pool = "repeat_tokens" if s.key == "prob" else "end_tokens"
+            ok = N is not None and solve([f"$D[{s.a1}] in {N}.{pool}"], pos) is not None and kinds.get(N) == "Stochastic"
+            what = ("reaction edges range over repeat-unit descriptors (the growth pool)" if s.key == "prob"
+                    else "termination edges range over end-group descriptors (the capping pool)")
         else:
+            others = [v for v in kinds if v != N]
+            E = others[0] if len(others) == 1 else None
             need = []
-            if "isinstance(next_element, Stochastic)" in pos:
-                need += [f"{s.a1}.is_compatible(next_element.left_terminal)", f"bond_descriptors[{s.a1}] in next_element.repeat_tokens"]
-            if "isinstance(element, Stochastic)" in pos:
-                need += [f"{s.a0}.is_compatible(element.right_terminal)", f"bond_descriptors[{s.a0}] in element.repeat_tokens"]
-            if isinstance(s.value, ast.Constant) and "isinstance(element, Stochastic)" in pos:
-                # a constant probability must not be claimed for a target the generator never picks (weight 0, e.g. the
-                # linker's outgoing descriptor the parser writes as |0.0|)
-                need += [f"{s.a1}.weight > 0"]
-            ok = all(x in pos for x in need) and ("isinstance(next_element, Stochastic)" in pos or "isinstance(next_element, SmilesToken)" in pos)
-            what = "inter-element edges enter only the next element's repeat-unit descriptors admitted by its left terminal and leave only repeat-unit descriptors admitted by the right terminal"
+            if N is not None and kinds.get(N) == "Stochastic":
+                need += [f"{s.a1}.is_compatible({N}.left_terminal)", f"$D[{s.a1}] in {N}.repeat_tokens"]
+            if E is not None and kinds.get(E) == "Stochastic":
+                need += [f"{s.a0}.is_compatible({E}.right_terminal)", f"$D[{s.a0}] in {E}.repeat_tokens"]
+                if isinstance(s.value, ast.Constant):
+                    # a constant probability must not be claimed for a target the generator never picks (weight 0)
+                    need += [f"{s.a1}.weight > 0"]
+            ok = N is not None and E is not None and kinds.get(N) in ("Stochastic", "SmilesToken") and solve(need, pos) is not None
+            combos.add((kinds.get(E, "?"), kinds.get(N, "?")))
+            pairs.append((E, N))
+            what = ("inter-element edges enter only the next element's repeat-unit descriptors admitted by its left terminal and leave only "
+                    "repeat-unit descriptors admitted by the right terminal")
             if not ok:
-                what += f" (missing {[x for x in need if x not in pos]})"
+                what += f" (required: {need})"
         res.ob(rule, fi, role, what, s.call, ok, f"guards {sorted(pos)[:6]}")
-    # the four element-kind combinations are all present
-    combos = set()
-    for s in sites:
-        if s.key == "trans_prob":
-            pos = {t for t, p in s.guards if p}
-            a = "Stochastic" if "isinstance(element, Stochastic)" in pos else ("SmilesToken" if "isinstance(element, SmilesToken)" in pos else "?")
-            b = "Stochastic" if "isinstance(next_element, Stochastic)" in pos else ("SmilesToken" if "isinstance(next_element, SmilesToken)" in pos else "?")
-            combos.add((a, b))
     want = {("SmilesToken", "SmilesToken"), ("SmilesToken", "Stochastic"), ("Stochastic", "SmilesToken"), ("Stochastic", "Stochastic")}
     res.ob(rule, fi, "transition-combinations", "transition edges exist for all four combinations of consecutive element kinds", fi.node, combos == want, f"found {sorted(combos)}")
     # next element is the directly following one
-    ne = [d for d in flow.defs if d.name == "next_element" and d.kind == "assign"]
-    ok = len(ne) == 1 and src(ne[0].value) == "self._elements[element_id + 1]"
-    res.ob(rule, fi, "consecutive-elements", "transitions connect an element with the directly following element only", ne[0].stmt if ne else fi.node, ok)
+    ok = bool(pairs)
+    for E, N in set(pairs):
+        dE = [d for d in flow.defs if d.name == E and d.kind == "assign"]
+        dN = [d for d in flow.defs if d.name == N and d.kind == "assign"]
+        eE = [unify("self._elements[$I]", src(d.value)) for d in dE]
+        eN = [unify("self._elements[$I + 1]", src(d.value)) for d in dN]
+        ok = ok and len(dN) == 1 and eN[0] is not None and any(e is not None and e["I"] == eN[0]["I"] for e in eE)
+    res.ob(rule, fi, "consecutive-elements", "transitions connect an element with the directly following element only", fi.node, ok)
     return n
 
 
